@@ -173,7 +173,7 @@ func HBurst(n int) func(*Rec, grpc.ServerStream) error {
 			return err
 		}
 		for i := 0; i < n; i++ {
-			if err := hSend(r, ss, fmt.Sprintf("b%d", i)); err != nil {
+			if err := hSend(r, ss, Pad(fmt.Sprintf("%s.b%d", r.Tag, i))); err != nil {
 				return err
 			}
 		}
@@ -216,7 +216,7 @@ func HReturnAfter(k int, ret error) func(*Rec, grpc.ServerStream) error {
 func HSendThenReturn(n int, ret error) func(*Rec, grpc.ServerStream) error {
 	return func(r *Rec, ss grpc.ServerStream) error {
 		for i := 0; i < n; i++ {
-			if err := hSend(r, ss, fmt.Sprintf("b%d", i)); err != nil {
+			if err := hSend(r, ss, Pad(fmt.Sprintf("%s.b%d", r.Tag, i))); err != nil {
 				return err
 			}
 		}
@@ -308,10 +308,35 @@ func CRecvAll(r *Rec, cs grpc.ClientStream) {
 	}
 }
 
+// MsgSize pads every message the standard programs send to at least this many
+// bytes (0: short messages).  Payloads above 1 KiB go through the codec's
+// pooled buffers.
+var MsgSize int
+
+// Pad extends s to MsgSize bytes with filler that depends on s, so that two
+// different messages never share content.
+func Pad(s string) string {
+	if len(s) >= MsgSize {
+		return s
+	}
+	b := make([]byte, MsgSize)
+	copy(b, s)
+	b[len(s)] = '#'
+	h := uint32(2166136261)
+	for i := 0; i < len(s); i++ {
+		h = (h ^ uint32(s[i])) * 16777619
+	}
+	for i := len(s) + 1; i < len(b); i++ {
+		h = h*1664525 + 1013904223
+		b[i] = 'a' + byte(h>>24)%26
+	}
+	return string(b)
+}
+
 func msgs(tag string, n int) []string {
 	var out []string
 	for i := 0; i < n; i++ {
-		out = append(out, fmt.Sprintf("%s.m%d", tag, i))
+		out = append(out, Pad(fmt.Sprintf("%s.m%d", tag, i)))
 	}
 	return out
 }
